@@ -402,6 +402,21 @@ func (f *Frame) callByContract(v ssa.Value, in ssa.Instruction, sig *types.Signa
 		}
 		u.assume(st.cur, t)
 	}
+	// `assume` clauses: facts about the callee that its own verification does not establish
+	// (they are discharged by a different back end, named in the clause's remark); used at call
+	// sites and listed in the trusted base of every unit that uses them
+	for _, cl := range c.ClausesOf("assume") {
+		if !cl.ForProp(c, u.Prop) {
+			continue
+		}
+		t, err := env.evalBool(cl.Text)
+		if err != nil {
+			u.W.fail("%s:%d: assume of %s: %v", cl.File, cl.Line, c.Key, err)
+			continue
+		}
+		u.assume(st.cur, t)
+		u.trusted["assumed clause of "+c.Target+" (not proved from its body): "+cl.Text] = true
+	}
 	if c.Kind == "extern" || c.Flags["trusted"] {
 		u.trusted["assumed contract: "+c.Target] = true
 	}
@@ -989,7 +1004,7 @@ func (f *Frame) callModSet(c *ssa.CallCommon, mod map[string]bool) {
 	// traces update ghost state
 	for _, tr := range u.W.Traces {
 		if tr.matches(u.W, callee, c) {
-			for _, g := range []string{"$g.clock", "$g.n" + tr.Tag, "$g.t" + tr.Tag, "$g.recv" + tr.Tag, "$g.arg" + tr.Tag, "$g.ret" + tr.Tag, "$g.seq" + tr.Tag} {
+			for _, g := range []string{"$g.clock", "$g.n" + tr.Tag, "$g.t" + tr.Tag, "$g.recv" + tr.Tag, "$g.arg" + tr.Tag, "$g.ret" + tr.Tag, "$g.seq" + tr.Tag, "$g.rseq" + tr.Tag, "$g.aseq" + tr.Tag, "$g.bseq" + tr.Tag} {
 				mod[g] = true
 			}
 		}
